@@ -227,6 +227,8 @@ def run(ctx: Ctx):
         r = tau_p(b_, l_) if plot is None else tau_p(b_, l_, plot=plot)
         return (*r, b_, l_)
     plotinert.check(ctx, "Taus.__call__", call_taus, {"events": 48}, spellings=("list", "name"))
+    import logmode   # … and so is the logging configuration of the calling program
+    logmode.check(ctx, "Taus.__call__", lambda: call_taus(None), {"events": 48})
     # ---- EAS.altDec with explicit u
     cfg = nss.NssConfig()
     eas = EAS(cfg)
